@@ -71,7 +71,7 @@ def run(ctx, replay=None):
     mid = sorted(scen)[len(scen) // 2] if scen else 1
     return {
         "evaluations": (summ["scenarios"] if summ else 0) + (csumm["scenarios"] if csumm else 0),
-        "distinct_nontrivial": len({json.dumps([s["ops"], s["pre"], s.get("choices"), s["subjects"], s["dirty"], s["faildel"], s["skipgc"]])
+        "distinct_nontrivial": len({json.dumps([s["ops"], s["pre"], s.get("choices"), s["subjects"], s["dirty"], s["faildel"], s.get("failidx"), s["skipgc"]])
                                     for s in scen.values()}) + len({json.dumps([s["ops"], s["truth"], s.get("choices")]) for s in cscen.values()}),
         "rule": "one evaluation = one round of 2-6 concurrent calls through one real Repository (one gate-level schedule of its HTTP "
                 "exchanges, or one un-gated run): referrer pushes/deletions on a registry without the Referrers API, or capability "
